@@ -266,11 +266,16 @@ def _sgrid(ctx, P):
 def _hierarchy(ctx, P):
     fi = P.func("metadata_parsers:parse_metadata")
 
+    # the two parsers answer with axes of their own (as for a dataset that declares SGRID and also carries COMODO `axis`
+    # attributes on further coordinates): the result must be one parser's answer, never a blend of both
+    RES = {"SGRID-RESULT": {"coords": {Sym("X"): {"center": Sym("xi_rho"), "inner": Sym("xi_psi")}, Sym("Y"): {"center": Sym("eta_rho"), "inner": Sym("eta_psi")}}},
+           "COMODO-RESULT": {"coords": {Sym("X"): {"center": Sym("xc")}, Sym("T"): {"center": Sym("time")}, Sym("Z"): {"center": Sym("lev")}}}}
+
     def m_s(ev, args, kw, node):
-        return (args[0], {"coords": "SGRID-RESULT"})
+        return (args[0], copy.deepcopy(RES["SGRID-RESULT"]))
 
     def m_c(ev, args, kw, node):
-        return (args[0], {"coords": "COMODO-RESULT"})
+        return (args[0], copy.deepcopy(RES["COMODO-RESULT"]))
 
     ev = Evaluator(P, models={"metadata_parsers:parse_sgrid": m_s, "metadata_parsers:parse_comodo": m_c}, method_models=ds_models())
     for name, attrs, want in (("Conventions: 'CF-1.6, SGRID-0.3'", {"Conventions": "CF-1.6, SGRID-0.3"}, "SGRID-RESULT"), ("conventions: 'sgrid'", {"conventions": "sgrid"}, "SGRID-RESULT"),
@@ -278,7 +283,7 @@ def _hierarchy(ctx, P):
         try:
             ds = make_ds({}, attrs=attrs)
             outs = ev.run_paths(fi, lambda: dict(ds=ds))
-            ok = all(o.kind == "return" and isinstance(o.value, tuple) and o.value[0] is ds and o.value[1] == {"coords": want} for o in outs)
+            ok = all(o.kind == "return" and isinstance(o.value, tuple) and o.value[0] is ds and o.value[1] == RES[want] for o in outs)
             if ok:
                 ctx.ok("R14.3", f"dataset with {name}", f"-> {want}")
             else:
